@@ -81,7 +81,7 @@ IsShort(n) == n < Min(CS, Avail)
 \* first read, before the loop (encrypt.rs:130-134)
 ReadFirst ==
   /\ pc = "read0"
-  /\ \E n \in ReadSizes :
+  /\ \E n \in (IF Variant = "ReadAllFirst" THEN {Avail} ELSE ReadSizes) :   \* deviation: slurp the whole input
        /\ prevLen' = n /\ plo' = pos /\ pos' = pos + n
        /\ done' = (n = 0)
        /\ shorts' = IF MaxShort >= 0 /\ IsShort(n) THEN shorts + 1 ELSE shorts
